@@ -187,7 +187,7 @@ def solver_case(emit, cid, solver, df, pen, rng, seed, rep):
         knobs[b_ep] = 5000 if b_ep == "max_epochs" else 300
     cs = dict(check="C10", seed=seed, coords=[solver, str(df), pen, rep], solver=solver, datafit=df, penalty=pen,
               storage="dense", fit_intercept=icpt, strategy="subdiff", n=int(rng.integers(12, 35)), p=int(rng.integers(3, 12)),
-              xkind=str(rng.choice(["gauss", "ar", "shifted", "centered"])), rho=0.7, density=float(rng.choice([1.0, 0.5])),
+              xkind=str(rng.choice(["gauss", "ar", "shifted", "centered", "contrast"])), rho=0.7, density=float(rng.choice([1.0, 0.5])),
               alpha_frac=float(rng.choice([0.05, 0.3])), knobs=knobs, group_style=str(rng.choice(["contig", "perm", "trap"])),
               n_tasks=int(rng.integers(1, 4)), zero_weights=bool(rng.integers(0, 2)))
     if rng.random() < 0.4 and cs["p"] > 3:
